@@ -1,7 +1,7 @@
 (** Dispatch table of the extracted correspondence driver: each model function wrapped
     as [val -> val].  The harness (harness/model.py) reads the ids and names from the
     comments of [dispatch], so this file is the single registry. *)
-From SE Require Import Base Codecs.
+From SE Require Import Base Codecs Fat.
 From Coq Require Import Floats.PrimFloat Floats.SpecFloat Floats.FloatOps.
 
 (** floats travel as (kind sign mantissa exponent): kind 0 = finite (value = +-m*2^e,
@@ -36,6 +36,11 @@ Definition unpynum (v : val) : pynum :=
   | _ => PInt 0
   end.
 
+Definition vlink (l : link) : val := VL [VI (lnext l); vbool (lend l)].
+Definition unlink (v : val) : link :=
+  match v with VL [VI n; VI e] => {| lnext := n; lend := negb (e =? 0) |} | _ => dlink end.
+Definition nth_arg (a : val) (n : nat) : val := nth n (unVL a) (VI 0).
+
 Definition dispatch (id : Z) (a : val) : val :=
   match id with
   | 101 (* fast_akai_to_ascii_byte *) => vres VI (fast_akai_to_ascii_byte (unVI a))
@@ -51,5 +56,16 @@ Definition dispatch (id : Z) (a : val) : val :=
   | 111 (* note_from_string *) => vres vnote (note_from_string (unVLZ a))
   | 112 (* parse_tune_cents *) => vpynum (parse_tune_cents (unVI a))
   | 113 (* build_tune_cents *) => VI (build_tune_cents (unpynum a))
+  | 201 (* get_path *) =>
+      vres vlistZ (get_path (unVI (nth_arg a 0)) (map unlink (unVL (nth_arg a 1))) (unVI (nth_arg a 2)))
+  | 202 (* add_links *) =>
+      vres (fun t => VL (map vlink t)) (add_links (unVLZ (nth_arg a 0)) (map unlink (unVL (nth_arg a 1))))
+  | 203 (* akai_decode *) => vres (fun t => VL (map vlink t)) (akai_decode (unVLZ a))
+  | 204 (* akai_get_segment *) => vres vlistZ (akai_get_segment (unVLZ (nth_arg a 0)) (unVI (nth_arg a 1)))
+  | 205 (* roland_decode *) =>
+      vres (fun r => VL [VI (fst r); VL (map vlink (snd r))]) (roland_decode (unVLZ a))
+  | 206 (* roland_get_file *) =>
+      vres vlistZ (t <- roland_decode (unVLZ (nth_arg a 0)) ;;
+                   roland_get_file (zlen (unVLZ (nth_arg a 0))) (snd t) (unVI (nth_arg a 1)) (unVI (nth_arg a 2)))
   | _ => vbad
   end.
